@@ -46,6 +46,10 @@ def _datas(tier, seed):
     for shp in [(4, 4), (5, 3), (3, 5), (6, 4), (4, 6), (8, 6)]:
         for X in fam.generic_list(shp[0], shp[1], seed, 4 if tier == "quick" else 40):
             out.append(("G%dx%d" % shp, X))
+    # the same generic data in very small / large units (exact powers of two): the scores are scale free
+    g = np.array(fam.generic_list(6, 4, seed, 1)[0], float)
+    out.append(("G6x4-unit2^-17", (g * 2.0 ** -17).tolist()))
+    out.append(("G6x4-unit2^14", (g * 2.0 ** 14).tolist()))
     # exact copies: a dominant column copied (stale scores of a refresh interval > 1 pick the copy), and
     # repeated rows (the same x measured again; with conflicting targets PCov-CUR picks the copy)
     for j, shp in enumerate([(8, 6), (7, 5)] if tier == "quick" else [(8, 6), (7, 5), (9, 6), (8, 7)]):
@@ -155,8 +159,9 @@ def _fit(kind, d, X, y, k, mixing, re, tolerance, n, record=True, prefit=False):
     if prefit:
         Xo = X[::-1, ::-1].copy() * 0.75 + 0.125 * np.abs(X).max()
         yo = None if y is None else (y[::-1].copy() * -0.5 + 0.25)
-        s.n_to_select = max(1, n - 1)
+        s.n_to_select = max(1, n - 1) if re % 2 else n  # another count / the same count (same buffer shapes)
         _, exc0 = sel.fit_quiet(s, Xo, yo)
+        sel.query_all(s, Xo)
         s.n_to_select = n
         if exc0 is not None:
             return s, None, exc0
